@@ -257,7 +257,11 @@ impl Ca {
 
 	fn new_nonce(&mut self, env: &mut CaEnv) -> String {
 		self.nonce_counter += 1;
-		let v = super::prng::mix(env.streams.seed, &format!("nonce.{}", self.idx), self.nonce_counter);
+		let v = super::prng::mix(
+			env.streams.seed,
+			&format!("nonce.{}", self.idx),
+			self.nonce_counter,
+		);
 		let n = format!("N{}-{:016x}_{}", self.idx, v, self.nonce_counter);
 		self.nonces.insert(n.clone(), (env.mono, None));
 		n
@@ -266,7 +270,11 @@ impl Ca {
 	/// (class, object index) of a request path
 	pub fn classify(&self, method: &str, url: &str) -> (String, Option<usize>) {
 		let base = self.base();
-		let path = if url.starts_with(&base) { &url[base.len()..] } else { "" };
+		let path = if url.starts_with(&base) {
+			&url[base.len()..]
+		} else {
+			""
+		};
 		let num = |p: &str| p.rsplit('/').next().and_then(|s| s.parse::<usize>().ok());
 		let (c, o): (&str, Option<usize>) = match path {
 			"/dir" => ("directory", None),
@@ -279,12 +287,25 @@ impl Ca {
 			p if p.starts_with("/orders/") => ("orders", num(p)),
 			p if p.starts_with("/order/") => {
 				let o = num(p);
-				let fin = o.and_then(|i| self.orders.get(i)).map(|o| !o.finalize_csrs.is_empty()).unwrap_or(false);
-				(if fin { "orderPollValid" } else { "orderPollReady" }, o)
+				let fin = o
+					.and_then(|i| self.orders.get(i))
+					.map(|o| !o.finalize_csrs.is_empty())
+					.unwrap_or(false);
+				(
+					if fin {
+						"orderPollValid"
+					} else {
+						"orderPollReady"
+					},
+					o,
+				)
 			}
 			p if p.starts_with("/authz/") => {
 				let a = num(p);
-				let seen = a.and_then(|i| self.authzs.get(i)).map(|a| a.fetches > 0).unwrap_or(false);
+				let seen = a
+					.and_then(|i| self.authzs.get(i))
+					.map(|a| a.fetches > 0)
+					.unwrap_or(false);
 				(if seen { "authzPoll" } else { "authz" }, a)
 			}
 			p if p.starts_with("/chall/") => ("challenge", num(p)),
@@ -307,7 +328,11 @@ impl Ca {
 				}
 			}
 			"authz" | "authzPoll" => self.authzs.get(o).map(|a| a.order),
-			"challenge" => self.challs.get(o).and_then(|c| self.authzs.get(c.authz)).map(|a| a.order),
+			"challenge" => self
+				.challs
+				.get(o)
+				.and_then(|c| self.authzs.get(c.authz))
+				.map(|a| a.order),
 			_ => None,
 		}
 	}
@@ -325,7 +350,12 @@ impl Ca {
 		None
 	}
 
-	fn match_fault(&mut self, env: &mut CaEnv, class: &str, cert: Option<usize>) -> Option<(FaultKind, String)> {
+	fn match_fault(
+		&mut self,
+		env: &mut CaEnv,
+		class: &str,
+		cert: Option<usize>,
+	) -> Option<(FaultKind, String)> {
 		let mut hit = None;
 		for (f, seen) in env.faults.iter_mut() {
 			if f.site != "net" || f.ca != self.idx {
@@ -362,7 +392,11 @@ impl Ca {
 		let fault = self.match_fault(env, &class, cert);
 		let fname = fault.as_ref().map(|f| f.1.clone());
 		if let Some((FaultKind::Refuse, _)) = &fault {
-			return (Reply::Err("error sending request: connection refused (simulated)".into()), class, fname);
+			return (
+				Reply::Err("error sending request: connection refused (simulated)".into()),
+				class,
+				fname,
+			);
 		}
 		let is_post = req.method == "POST";
 		let mut delay = 0u64;
@@ -370,11 +404,29 @@ impl Ca {
 			self.post_count += 1;
 			let (mut rec, jws, acct, key) = self.verify_post(req, &class, order, cert, env);
 			let scripted = match &fault {
-				Some((FaultKind::Acme { typ, status, detail }, n)) => {
+				Some((
+					FaultKind::Acme {
+						typ,
+						status,
+						detail,
+					},
+					n,
+				)) => {
 					rec.scripted = Some(n.clone());
-					Some(problem(*status, typ, detail.as_deref().unwrap_or("scripted error")))
+					Some(problem(
+						*status,
+						typ,
+						detail.as_deref().unwrap_or("scripted error"),
+					))
 				}
-				Some((FaultKind::Http { status, body, content_type }, n)) => {
+				Some((
+					FaultKind::Http {
+						status,
+						body,
+						content_type,
+					},
+					n,
+				)) => {
 					rec.scripted = Some(n.clone());
 					let mut h = vec![];
 					if !content_type.is_empty() {
@@ -395,14 +447,18 @@ impl Ca {
 			let mut r = if let Some(r) = scripted {
 				r
 			} else if knob_bad_nonce {
-				*env.counters.entry("probe.knob_bad_nonce".into()).or_insert(0) += 1;
+				*env.counters
+					.entry("probe.knob_bad_nonce".into())
+					.or_insert(0) += 1;
 				rec.scripted = Some("knob_bad_nonce".into());
 				problem(400, "badNonce", "nonce refused (CA behaviour knob)")
 			} else if let Some(r) = self.refusal(&rec) {
 				r
 			} else {
 				match (jws, key) {
-					(Some(jws), Some(key)) => self.process(req, &class, obj, &jws, acct, &key, &mut rec, env),
+					(Some(jws), Some(key)) => {
+						self.process(req, &class, obj, &jws, acct, &key, &mut rec, env)
+					}
 					_ => problem(400, "malformed", "unusable request"),
 				}
 			};
@@ -416,10 +472,28 @@ impl Ca {
 			r
 		} else {
 			let mut r = match &fault {
-				Some((FaultKind::Acme { typ, status, detail }, _)) => problem(*status, typ, detail.as_deref().unwrap_or("scripted error")),
-				Some((FaultKind::Http { status, body, content_type }, _)) => Resp {
+				Some((
+					FaultKind::Acme {
+						typ,
+						status,
+						detail,
+					},
+					_,
+				)) => problem(*status, typ, detail.as_deref().unwrap_or("scripted error")),
+				Some((
+					FaultKind::Http {
+						status,
+						body,
+						content_type,
+					},
+					_,
+				)) => Resp {
 					status: *status,
-					headers: if content_type.is_empty() { vec![] } else { vec![("Content-Type".into(), content_type.clone())] },
+					headers: if content_type.is_empty() {
+						vec![]
+					} else {
+						vec![("Content-Type".into(), content_type.clone())]
+					},
 					body: body.clone().into_bytes(),
 				},
 				_ => self.get(req, &class, env),
@@ -456,7 +530,13 @@ impl Ca {
 						}
 					}
 				}
-				return (Reply::Err("error sending request: connection reset by peer (simulated)".into()), class, fname);
+				return (
+					Reply::Err(
+						"error sending request: connection reset by peer (simulated)".into(),
+					),
+					class,
+					fname,
+				);
 			}
 			Some((FaultKind::Delay { ms }, _)) => delay = *ms,
 			Some((k, _)) => {
@@ -508,7 +588,11 @@ impl Ca {
 				headers: vec![("Cache-Control".into(), "no-store".into())],
 				body: vec![],
 			},
-			_ => problem(405, "malformed", "GET is not allowed on this resource (POST-as-GET required)"),
+			_ => problem(
+				405,
+				"malformed",
+				"GET is not allowed on this resource (POST-as-GET required)",
+			),
 		}
 	}
 
@@ -579,10 +663,15 @@ impl Ca {
 		let h = &jws.header;
 		for k in h.as_object().unwrap().keys() {
 			if !["alg", "nonce", "url", "jwk", "kid"].contains(&k.as_str()) {
-				rec.problems.push(format!("unexpected_protected_member:{}", k));
+				rec.problems
+					.push(format!("unexpected_protected_member:{}", k));
 			}
 		}
-		rec.alg = h.get("alg").and_then(|a| a.as_str()).unwrap_or("").to_string();
+		rec.alg = h
+			.get("alg")
+			.and_then(|a| a.as_str())
+			.unwrap_or("")
+			.to_string();
 		if rec.alg.is_empty() || rec.alg == "none" || rec.alg.starts_with("HS") {
 			rec.problems.push(format!("alg_unacceptable:{}", rec.alg));
 		}
@@ -607,7 +696,9 @@ impl Ca {
 						Some((_, Some(by))) => NonceState::Consumed { by_tx: *by },
 						Some((at, c)) => {
 							let expired = match self.knobs.nonce_ttl_s {
-								Some(ttl) => env.mono.saturating_sub(*at) > (ttl as u128) * 1_000_000_000,
+								Some(ttl) => {
+									env.mono.saturating_sub(*at) > (ttl as u128) * 1_000_000_000
+								}
 								None => false,
 							};
 							*c = Some(req.tx);
@@ -638,7 +729,8 @@ impl Ca {
 		rec.kid = h.get("kid").and_then(|k| k.as_str()).map(|s| s.to_string());
 		let want_jwk = class == "newAccount";
 		if (want_jwk && rec.key_mode != "jwk") || (!want_jwk && rec.key_mode != "kid") {
-			rec.problems.push(format!("jwk_kid_discipline:{}_on_{}", rec.key_mode, class));
+			rec.problems
+				.push(format!("jwk_kid_discipline:{}_on_{}", rec.key_mode, class));
 		}
 		let mut acct = None;
 		let mut key: Option<Jwk> = None;
@@ -650,7 +742,11 @@ impl Ca {
 		}
 		if let Some(kid) = &rec.kid {
 			let prefix = format!("{}/acct/", self.base());
-			let id = if kid.starts_with(&prefix) { kid[prefix.len()..].parse::<usize>().ok() } else { None };
+			let id = if kid.starts_with(&prefix) {
+				kid[prefix.len()..].parse::<usize>().ok()
+			} else {
+				None
+			};
 			match id.and_then(|i| self.accounts.get(i)) {
 				Some(a) => {
 					acct = Some(a.id);
@@ -666,13 +762,17 @@ impl Ca {
 			rec.thumb = Some(k.thumb.clone());
 			rec.key_kind = k.kind.clone();
 			if !rec.alg.is_empty() && !keys::alg_matches(&rec.alg, k) {
-				rec.problems.push(format!("alg_key_mismatch:{}_with_{}", rec.alg, k.kind));
+				rec.problems
+					.push(format!("alg_key_mismatch:{}_with_{}", rec.alg, k.kind));
 			}
 			let info = keys::verify(&rec.alg, k, &jws.signing_input(), &jws.signature);
 			rec.sig_ok = info.ok;
 			rec.short_component = info.short_component;
 			if !info.ok {
-				rec.problems.push(format!("bad_signature:{}", info.problem.unwrap_or_default()));
+				rec.problems.push(format!(
+					"bad_signature:{}",
+					info.problem.unwrap_or_default()
+				));
 			}
 		}
 		(rec, Some(jws), acct, key)
@@ -684,7 +784,11 @@ impl Ca {
 			return None;
 		}
 		if rec.nonce_state != NonceState::Fresh {
-			return Some(problem(400, "badNonce", &format!("unacceptable nonce ({:?})", rec.nonce_state)));
+			return Some(problem(
+				400,
+				"badNonce",
+				&format!("unacceptable nonce ({:?})", rec.nonce_state),
+			));
 		}
 		let p = rec.problems.join("; ");
 		let first = rec.problems[0].split(':').next().unwrap_or("");
@@ -693,7 +797,11 @@ impl Ca {
 				if self.knobs.bad_sig_answer == "malformed" {
 					problem(400, "malformed", &format!("JWS verification error: {}", p))
 				} else {
-					problem(401, "unauthorized", &format!("JWS verification error: {}", p))
+					problem(
+						401,
+						"unauthorized",
+						&format!("JWS verification error: {}", p),
+					)
 				}
 			}
 			"url_mismatch" | "url_missing" => problem(401, "unauthorized", &p),
@@ -725,13 +833,21 @@ impl Ca {
 			};
 			if self.accounts[a].forgotten {
 				self.does_not_exist.push((req.tx, a));
-				return problem(400, "accountDoesNotExist", "account does not exist (forgotten by the CA)");
+				return problem(
+					400,
+					"accountDoesNotExist",
+					"account does not exist (forgotten by the CA)",
+				);
 			}
 			if self.accounts[a].status != "valid" {
 				return problem(403, "unauthorized", "account is not valid");
 			}
 		}
-		let payload_json: Option<Value> = if jws.payload.is_empty() { None } else { serde_json::from_slice(&jws.payload).ok() };
+		let payload_json: Option<Value> = if jws.payload.is_empty() {
+			None
+		} else {
+			serde_json::from_slice(&jws.payload).ok()
+		};
 		match class {
 			"newAccount" => self.new_account(req, key, payload_json, rec, env),
 			"account" => {
@@ -741,13 +857,23 @@ impl Ca {
 				}
 				if let Some(p) = &payload_json {
 					if let Some(c) = p.get("contact") {
-						let cts: Option<Vec<String>> = c.as_array().map(|v| v.iter().filter_map(|x| x.as_str().map(|s| s.to_string())).collect());
+						let cts: Option<Vec<String>> = c.as_array().map(|v| {
+							v.iter()
+								.filter_map(|x| x.as_str().map(|s| s.to_string()))
+								.collect()
+						});
 						match cts {
 							Some(cts) => {
 								self.accounts[a].contacts = cts.clone();
 								self.accounts[a].contact_updates.push((req.tx, cts));
 							}
-							None => return problem(400, "malformed", "contact must be an array of strings"),
+							None => {
+								return problem(
+									400,
+									"malformed",
+									"contact must be an array of strings",
+								)
+							}
 						}
 					}
 					if p.get("status").and_then(|s| s.as_str()) == Some("deactivated") {
@@ -768,7 +894,11 @@ impl Ca {
 				match obj.filter(|i| *i < self.authzs.len()) {
 					Some(i) => {
 						if self.orders[self.authzs[i].order].account != acct.unwrap() {
-							return problem(403, "unauthorized", "authorization belongs to another account");
+							return problem(
+								403,
+								"unauthorized",
+								"authorization belongs to another account",
+							);
 						}
 						self.poll_authz(i, req.tx);
 						json_resp(200, &self.authz_json(i))
@@ -780,11 +910,21 @@ impl Ca {
 				Some(i) => {
 					let az = self.challs[i].authz;
 					if self.orders[self.authzs[az].order].account != acct.unwrap() {
-						return problem(403, "unauthorized", "challenge belongs to another account");
+						return problem(
+							403,
+							"unauthorized",
+							"challenge belongs to another account",
+						);
 					}
 					match &payload_json {
 						Some(Value::Object(_)) => {}
-						_ => return problem(400, "malformed", "challenge response payload must be a JSON object"),
+						_ => {
+							return problem(
+								400,
+								"malformed",
+								"challenge response payload must be a JSON object",
+							)
+						}
 					}
 					self.challs[i].posted.push((req.tx, *env.seq));
 					if self.authzs[az].status == "pending" && self.challs[i].status == "pending" {
@@ -793,7 +933,10 @@ impl Ca {
 						self.authzs[az].polls_left = self.knobs.polls_authz;
 					}
 					let mut r = json_resp(200, &self.chall_json(i));
-					r.headers.push(("Link".into(), format!("<{}/authz/{}>;rel=\"up\"", self.base(), az)));
+					r.headers.push((
+						"Link".into(),
+						format!("<{}/authz/{}>;rel=\"up\"", self.base(), az),
+					));
 					r
 				}
 				None => problem(404, "malformed", "no such challenge"),
@@ -805,7 +948,11 @@ impl Ca {
 				match obj.filter(|i| *i < self.orders.len()) {
 					Some(i) => {
 						if self.orders[i].account != acct.unwrap() {
-							return problem(403, "unauthorized", "order belongs to another account");
+							return problem(
+								403,
+								"unauthorized",
+								"order belongs to another account",
+							);
 						}
 						self.poll_order(i, env);
 						json_resp(200, &self.order_json(i))
@@ -829,14 +976,21 @@ impl Ca {
 				match obj.filter(|i| *i < self.orders.len()) {
 					Some(i) => {
 						if self.orders[i].account != acct.unwrap() {
-							return problem(403, "unauthorized", "certificate belongs to another account");
+							return problem(
+								403,
+								"unauthorized",
+								"certificate belongs to another account",
+							);
 						}
 						match self.orders[i].issued {
 							Some(c) => {
 								self.orders[i].downloads.push((req.tx, false));
 								Resp {
 									status: 200,
-									headers: vec![("Content-Type".into(), "application/pem-certificate-chain".into())],
+									headers: vec![(
+										"Content-Type".into(),
+										"application/pem-certificate-chain".into(),
+									)],
 									body: self.issued[c].pem.clone().into_bytes(),
 								}
 							}
@@ -863,17 +1017,34 @@ impl Ca {
 		v
 	}
 
-	fn new_account(&mut self, req: &Req, key: &Jwk, payload: Option<Value>, rec: &mut PostRec, env: &mut CaEnv) -> Resp {
+	fn new_account(
+		&mut self,
+		req: &Req,
+		key: &Jwk,
+		payload: Option<Value>,
+		rec: &mut PostRec,
+		env: &mut CaEnv,
+	) -> Resp {
 		let p = match payload {
 			Some(p) if p.is_object() => p,
 			_ => return problem(400, "malformed", "newAccount payload must be a JSON object"),
 		};
-		let only_existing = p.get("onlyReturnExisting").and_then(|b| b.as_bool()).unwrap_or(false);
-		let tos = p.get("termsOfServiceAgreed").and_then(|b| b.as_bool()).unwrap_or(false);
+		let only_existing = p
+			.get("onlyReturnExisting")
+			.and_then(|b| b.as_bool())
+			.unwrap_or(false);
+		let tos = p
+			.get("termsOfServiceAgreed")
+			.and_then(|b| b.as_bool())
+			.unwrap_or(false);
 		let contacts: Vec<String> = p
 			.get("contact")
 			.and_then(|c| c.as_array())
-			.map(|v| v.iter().filter_map(|x| x.as_str().map(|s| s.to_string())).collect())
+			.map(|v| {
+				v.iter()
+					.filter_map(|x| x.as_str().map(|s| s.to_string()))
+					.collect()
+			})
 			.unwrap_or_default();
 		let mut nrec = NewAccountRec {
 			tx: req.tx,
@@ -893,8 +1064,14 @@ impl Ca {
 			let ok = (|| -> Result<String, String> {
 				let j = keys::parse_jws(eab)?;
 				let h = &j.header;
-				let alg = h.get("alg").and_then(|a| a.as_str()).ok_or("eab alg missing")?;
-				let kid = h.get("kid").and_then(|a| a.as_str()).ok_or("eab kid missing")?;
+				let alg = h
+					.get("alg")
+					.and_then(|a| a.as_str())
+					.ok_or("eab alg missing")?;
+				let kid = h
+					.get("kid")
+					.and_then(|a| a.as_str())
+					.ok_or("eab kid missing")?;
 				if h.get("nonce").is_some() {
 					return Err("eab must not carry a nonce".into());
 				}
@@ -906,7 +1083,10 @@ impl Ca {
 				if Some(&inner) != outer.as_ref() {
 					return Err("eab payload is not the outer jwk".into());
 				}
-				let mac = self.eab_keys.get(kid).ok_or_else(|| format!("unknown eab kid {}", kid))?;
+				let mac = self
+					.eab_keys
+					.get(kid)
+					.ok_or_else(|| format!("unknown eab kid {}", kid))?;
 				if !keys::hmac_ok(alg, mac, &j.signing_input(), &j.signature) {
 					return Err("eab MAC does not verify".into());
 				}
@@ -927,9 +1107,16 @@ impl Ca {
 			}
 		} else if self.knobs.eab_required {
 			self.new_accounts.push(nrec);
-			return problem(400, "externalAccountRequired", "this CA requires an external account binding");
+			return problem(
+				400,
+				"externalAccountRequired",
+				"this CA requires an external account binding",
+			);
 		}
-		let existing = self.accounts.iter().position(|a| a.key.thumb == key.thumb && !a.forgotten && a.status == "valid");
+		let existing = self
+			.accounts
+			.iter()
+			.position(|a| a.key.thumb == key.thumb && !a.forgotten && a.status == "valid");
 		let (status, id) = match existing {
 			Some(id) => (200, id),
 			None => {
@@ -989,30 +1176,52 @@ impl Ca {
 			if h.get("kid").is_some() {
 				return Err(bad("inner JWS must carry jwk, not kid".into()));
 			}
-			if h.get("url").and_then(|u| u.as_str()) != outer.header.get("url").and_then(|u| u.as_str()) {
+			if h.get("url").and_then(|u| u.as_str())
+				!= outer.header.get("url").and_then(|u| u.as_str())
+			{
 				return Err(bad("inner url differs from outer url".into()));
 			}
-			let jwk = h.get("jwk").ok_or_else(|| bad("inner JWS has no jwk".into()))?;
+			let jwk = h
+				.get("jwk")
+				.ok_or_else(|| bad("inner JWS has no jwk".into()))?;
 			let new_key = keys::parse_jwk(jwk).map_err(|e| (400, "badPublicKey", e))?;
 			let alg = h.get("alg").and_then(|a| a.as_str()).unwrap_or("");
 			if !keys::alg_matches(alg, &new_key) {
-				return Err((400, "badSignatureAlgorithm", format!("inner alg {} does not match the new key", alg)));
+				return Err((
+					400,
+					"badSignatureAlgorithm",
+					format!("inner alg {} does not match the new key", alg),
+				));
 			}
 			let v = keys::verify(alg, &new_key, &inner.signing_input(), &inner.signature);
 			if !v.ok {
-				return Err(bad(format!("inner signature: {}", v.problem.unwrap_or_default())));
+				return Err(bad(format!(
+					"inner signature: {}",
+					v.problem.unwrap_or_default()
+				)));
 			}
-			let p: Value = serde_json::from_slice(&inner.payload).map_err(|e| bad(format!("inner payload: {}", e)))?;
+			let p: Value = serde_json::from_slice(&inner.payload)
+				.map_err(|e| bad(format!("inner payload: {}", e)))?;
 			if p.get("account").and_then(|x| x.as_str()) != Some(self.acct_url(a).as_str()) {
 				return Err(bad("inner account does not match the outer kid".into()));
 			}
-			let ok = p.get("oldKey").ok_or_else(|| bad("oldKey missing".into()))?;
+			let ok = p
+				.get("oldKey")
+				.ok_or_else(|| bad("oldKey missing".into()))?;
 			let old = keys::parse_jwk(ok).map_err(|e| bad(format!("oldKey: {}", e)))?;
 			if old.thumb != self.accounts[a].key.thumb {
 				return Err(bad("oldKey is not the account's current key".into()));
 			}
-			if self.accounts.iter().any(|x| x.key.thumb == new_key.thumb && !x.forgotten) {
-				return Err((409, "malformed", "new key is already in use by an account".into()));
+			if self
+				.accounts
+				.iter()
+				.any(|x| x.key.thumb == new_key.thumb && !x.forgotten)
+			{
+				return Err((
+					409,
+					"malformed",
+					"new key is already in use by an account".into(),
+				));
 			}
 			Ok(new_key)
 		})();
@@ -1033,7 +1242,14 @@ impl Ca {
 		}
 	}
 
-	fn new_order(&mut self, req: &Req, a: usize, payload: Option<Value>, _rec: &mut PostRec, env: &mut CaEnv) -> Resp {
+	fn new_order(
+		&mut self,
+		req: &Req,
+		a: usize,
+		payload: Option<Value>,
+		_rec: &mut PostRec,
+		env: &mut CaEnv,
+	) -> Resp {
 		let p = match payload {
 			Some(p) => p,
 			None => return problem(400, "malformed", "newOrder payload must be JSON"),
@@ -1044,12 +1260,18 @@ impl Ca {
 		};
 		for (t, v) in &ids {
 			let ok = match t.as_str() {
-				"dns" => !v.is_empty() && v.is_ascii() && !v.chars().any(|c| c.is_ascii_uppercase()),
+				"dns" => {
+					!v.is_empty() && v.is_ascii() && !v.chars().any(|c| c.is_ascii_uppercase())
+				}
 				"ip" => v.parse::<std::net::IpAddr>().is_ok(),
 				_ => false,
 			};
 			if !ok {
-				return problem(400, "rejectedIdentifier", &format!("identifier {}:{} is not acceptable", t, v));
+				return problem(
+					400,
+					"rejectedIdentifier",
+					&format!("identifier {}:{} is not acceptable", t, v),
+				);
 			}
 		}
 		let oid = self.orders.len();
@@ -1068,14 +1290,24 @@ impl Ca {
 		for (pos, i) in idxs.iter().enumerate() {
 			let (t, v) = &ids[*i];
 			let wildcard = t == "dns" && v.starts_with("*.");
-			let value = if wildcard { v[2..].to_string() } else { v.clone() };
+			let value = if wildcard {
+				v[2..].to_string()
+			} else {
+				v.clone()
+			};
 			let aid = self.authzs.len();
 			let st = if self.knobs.authz_status.is_empty() {
 				String::new()
 			} else {
-				self.knobs.authz_status[(self.authz_counter as usize + pos) % self.knobs.authz_status.len()].clone()
+				self.knobs.authz_status
+					[(self.authz_counter as usize + pos) % self.knobs.authz_status.len()]
+				.clone()
 			};
-			let status = if st.is_empty() { "pending".to_string() } else { st };
+			let status = if st.is_empty() {
+				"pending".to_string()
+			} else {
+				st
+			};
 			// challenges offered
 			let mut types: Vec<String> = self.knobs.offer.clone();
 			if wildcard && !self.knobs.wildcard_any {
@@ -1098,8 +1330,13 @@ impl Ca {
 			let mut challs = vec![];
 			for ty in types {
 				let cid = self.challs.len();
-				let tok = super::prng::mix(env.streams.seed, &format!("token.{}", self.idx), cid as u64);
-				let tok2 = super::prng::mix(env.streams.seed, &format!("token2.{}", self.idx), cid as u64);
+				let tok =
+					super::prng::mix(env.streams.seed, &format!("token.{}", self.idx), cid as u64);
+				let tok2 = super::prng::mix(
+					env.streams.seed,
+					&format!("token2.{}", self.idx),
+					cid as u64,
+				);
 				// 128+ bits of base64url alphabet incl. '-' and '_' now and then
 				let token = super::util::b64u(&[tok.to_be_bytes(), tok2.to_be_bytes()].concat());
 				self.challs.push(Chall {
@@ -1107,7 +1344,11 @@ impl Ca {
 					authz: aid,
 					typ: ty,
 					token,
-					status: if status == "valid" { "valid".into() } else { "pending".into() },
+					status: if status == "valid" {
+						"valid".into()
+					} else {
+						"pending".into()
+					},
 					posted: vec![],
 				});
 				challs.push(cid);
@@ -1147,7 +1388,8 @@ impl Ca {
 		});
 		self.refresh_order(oid, false);
 		let mut r = json_resp(201, &self.order_json(oid));
-		r.headers.push(("Location".into(), format!("{}/order/{}", self.base(), oid)));
+		r.headers
+			.push(("Location".into(), format!("{}/order/{}", self.base(), oid)));
 		r
 	}
 
@@ -1185,8 +1427,14 @@ impl Ca {
 		if self.orders[o].status != "pending" {
 			return;
 		}
-		let all_valid = self.orders[o].authzs.iter().all(|a| self.authzs[*a].status == "valid");
-		let any_bad = self.orders[o].authzs.iter().any(|a| !["valid", "pending"].contains(&self.authzs[*a].status.as_str()));
+		let all_valid = self.orders[o]
+			.authzs
+			.iter()
+			.all(|a| self.authzs[*a].status == "valid");
+		let any_bad = self.orders[o]
+			.authzs
+			.iter()
+			.any(|a| !["valid", "pending"].contains(&self.authzs[*a].status.as_str()));
 		if any_bad {
 			self.orders[o].status = "invalid".into();
 		} else if all_valid {
@@ -1215,12 +1463,19 @@ impl Ca {
 		// an order whose authorizations are all valid is ready for the CA even if the client has
 		// not yet been shown "ready" (the stay-pending knob only affects what polls display)
 		if self.orders[o].status == "pending" {
-			let all_valid = self.orders[o].authzs.iter().all(|a| self.authzs[*a].status == "valid");
+			let all_valid = self.orders[o]
+				.authzs
+				.iter()
+				.all(|a| self.authzs[*a].status == "valid");
 			if all_valid {
 				self.orders[o].status = "ready".into();
 			}
 		}
-		let csr_b64 = payload.as_ref().and_then(|p| p.get("csr")).and_then(|c| c.as_str()).map(|s| s.to_string());
+		let csr_b64 = payload
+			.as_ref()
+			.and_then(|p| p.get("csr"))
+			.and_then(|c| c.as_str())
+			.map(|s| s.to_string());
 		let csr_der = csr_b64.as_deref().map(b64u_decode);
 		let hash = match &csr_der {
 			Some(Ok(d)) => super::util::sha256_hex(d),
@@ -1240,12 +1495,22 @@ impl Ca {
 		self.orders[o].csr = Some(facts.clone());
 		let pk = match pk {
 			Some(pk) if facts.self_sig_ok => pk,
-			_ => return problem(400, "badCSR", "CSR does not parse or its self-signature is invalid"),
+			_ => {
+				return problem(
+					400,
+					"badCSR",
+					"CSR does not parse or its self-signature is invalid",
+				)
+			}
 		};
 		// RFC 8555 7.4: the CSR must request exactly the order's identifiers
 		let mut want: Vec<(String, String)> = self.orders[o].identifiers.clone();
 		want.sort();
-		let mut got: Vec<(String, String)> = facts.dns.iter().map(|d| ("dns".to_string(), d.clone())).collect();
+		let mut got: Vec<(String, String)> = facts
+			.dns
+			.iter()
+			.map(|d| ("dns".to_string(), d.clone()))
+			.collect();
 		got.extend(facts.ips.iter().map(|d| ("ip".to_string(), d.clone())));
 		got.sort();
 		if want != got {
@@ -1270,7 +1535,15 @@ impl Ca {
 			}
 			_ => {}
 		}
-		match issue::issue(&pk, &dns, &ips, env.wall, life, chain, (self.idx * 100_000 + n) as u64) {
+		match issue::issue(
+			&pk,
+			&dns,
+			&ips,
+			env.wall,
+			life,
+			chain,
+			(self.idx * 100_000 + n) as u64,
+		) {
 			Ok(c) => {
 				self.issued.push(IssuedCert {
 					order: o,
@@ -1373,7 +1646,10 @@ pub fn parse_identifiers(p: &Value) -> Option<Vec<(String, String)>> {
 		if o.len() != 2 {
 			return None;
 		}
-		out.push((o.get("type")?.as_str()?.to_string(), o.get("value")?.as_str()?.to_string()));
+		out.push((
+			o.get("type")?.as_str()?.to_string(),
+			o.get("value")?.as_str()?.to_string(),
+		));
 	}
 	Some(out)
 }
@@ -1383,12 +1659,18 @@ fn problem_type(r: &Resp) -> Option<String> {
 		return None;
 	}
 	let v: Value = serde_json::from_slice(&r.body).ok()?;
-	v.get("type").and_then(|t| t.as_str()).map(|s| s.rsplit(':').next().unwrap_or("").to_string())
+	v.get("type")
+		.and_then(|t| t.as_str())
+		.map(|s| s.rsplit(':').next().unwrap_or("").to_string())
 }
 
 pub fn fault_name(k: &FaultKind) -> String {
 	match k {
-		FaultKind::Acme { typ, status, .. } => format!("acme.{}.{}", if typ.is_empty() { "<no type>" } else { typ }, status),
+		FaultKind::Acme { typ, status, .. } => format!(
+			"acme.{}.{}",
+			if typ.is_empty() { "<no type>" } else { typ },
+			status
+		),
 		FaultKind::Http { status, .. } => format!("http.{}", status),
 		FaultKind::Refuse => "refuse".into(),
 		FaultKind::ResetAfter => "reset_after".into(),
@@ -1425,7 +1707,10 @@ fn mutate(r: &mut Resp, k: &FaultKind, ca: &mut Ca, env: &mut CaEnv) -> bool {
 		}
 		FaultKind::DropField { name } => match serde_json::from_slice::<Value>(&r.body) {
 			Ok(mut v) => {
-				let had = v.as_object_mut().map(|o| o.remove(name).is_some()).unwrap_or(false);
+				let had = v
+					.as_object_mut()
+					.map(|o| o.remove(name).is_some())
+					.unwrap_or(false);
 				r.body = serde_json::to_vec(&v).unwrap();
 				had
 			}
@@ -1452,7 +1737,9 @@ fn mutate(r: &mut Resp, k: &FaultKind, ca: &mut Ca, env: &mut CaEnv) -> bool {
 			}
 		}
 		FaultKind::CertBody { what } => {
-			let is_pem = r.headers.iter().any(|(h, v)| h.eq_ignore_ascii_case("content-type") && v.contains("pem-certificate-chain"));
+			let is_pem = r.headers.iter().any(|(h, v)| {
+				h.eq_ignore_ascii_case("content-type") && v.contains("pem-certificate-chain")
+			});
 			if !is_pem || r.status != 200 {
 				return false;
 			}
@@ -1466,9 +1753,20 @@ fn mutate(r: &mut Resp, k: &FaultKind, ca: &mut Ca, env: &mut CaEnv) -> bool {
 				"not_utf8" => r.body = vec![0xff, 0xfe, 0x2d, 0x2d, 0x80],
 				_ => {
 					// a perfectly valid chain -- for somebody else's key
-					let g = openssl::ec::EcGroup::from_curve_name(openssl::nid::Nid::X9_62_PRIME256V1).unwrap();
-					let k = openssl::pkey::PKey::from_ec_key(openssl::ec::EcKey::generate(&g).unwrap()).unwrap();
-					let pem = issue::issue_for_private(&k, &["other.sim".to_string()], &[], env.wall, 90 * 86400).unwrap_or_default();
+					let g =
+						openssl::ec::EcGroup::from_curve_name(openssl::nid::Nid::X9_62_PRIME256V1)
+							.unwrap();
+					let k =
+						openssl::pkey::PKey::from_ec_key(openssl::ec::EcKey::generate(&g).unwrap())
+							.unwrap();
+					let pem = issue::issue_for_private(
+						&k,
+						&["other.sim".to_string()],
+						&[],
+						env.wall,
+						90 * 86400,
+					)
+					.unwrap_or_default();
 					r.body = pem.into_bytes();
 				}
 			}
